@@ -199,3 +199,72 @@ Definition wf_items (its : list item) : Prop := fold_right (fun i P => wf_item i
 
 Definition wf_main (m : main_layout) : Prop :=
   Forall wf_deco (m_before m) /\ wf_deco (m_open m) /\ wf_deco (m_close m) /\ Forall wf_deco (m_after m).
+
+(* ---------------------------------------------------------------------------------------------- single-fault files *)
+(* what makes a line a syntax error on its own (whatever surrounds it): no trailing brace, not a closing brace, not blank,
+   and no space (E_Syntax) / an untypable value (E_Value) / an unquoted include argument (E_IncValue) *)
+Definition bad_line (raw : bytes) : option N :=
+  let line := clean_up raw in
+  match strip_suffix_byte LBRACE line with
+  | Some _ => None
+  | None =>
+    if beq line [RBRACE] then None
+    else match line with
+         | [] => None
+         | _ =>
+           match split_once SP line with
+           | None => Some E_Syntax
+           | Some (a, b) =>
+             if negb (beq (trim a) kw_include) then
+               match type_value (trim a) (trim b) with Err c => Some c | _ => None end
+             else if is_quoted (trim b) then None else Some E_IncValue
+           end
+         end
+  end.
+
+(* items in which raw lines are allowed, provided each is bad on its own *)
+Fixpoint wf_item_bad (it : item) : Prop :=
+  match it with
+  | IKv d key g1 g2 v =>
+    wf_deco d /\ keyb key = true /\ key <> kw_include /\ tabsb g1 = true /\ blankb g2 = true /\ wf_value v
+  | ISec d k w1 w2 body dc =>
+    wf_deco d /\ wf_deco dc /\ wf_kind k /\ blankb w1 = true /\ blankb w2 = true /\
+    fold_right (fun i P => wf_item_bad i /\ P) True body
+  | IInc d g1 g2 path body _ =>
+    wf_deco d /\ tabsb g1 = true /\ blankb g2 = true /\ wf_str path /\
+    fold_right (fun i P => wf_item_bad i /\ P) True body
+  | IBlank d => wf_deco d
+  | IRaw l => bad_line l <> None /\ forallb (fun b => negb (b =? 10) && negb (b =? 13)) l = true
+  end.
+Definition wf_items_bad (its : list item) : Prop := fold_right (fun i P => wf_item_bad i /\ P) True its.
+
+(* where the first bad line is: inl = no bad line, current_line afterwards; inr = the error the loader must report.
+   file = the file being read; lines of an included file are counted from 0 in that file *)
+Fixpoint scan_item (file : bytes) (it : item) (ln : N) : N + cerr :=
+  match it with
+  | IRaw l => match bad_line l with Some c => inr (mkerr c file (ln + 1)) | None => inl (ln + 1) end
+  | ISec _ _ _ _ body _ =>
+    match (fix go (its : list item) (ln : N) : N + cerr :=
+             match its with
+             | [] => inl ln
+             | i :: r => match scan_item file i ln with inl ln' => go r ln' | inr e => inr e end
+             end) body (ln + 1) with
+    | inl ln' => inl (ln' + 1)
+    | inr e => inr e
+    end
+  | IInc _ _ _ path body _ =>
+    match (fix go (its : list item) (ln : N) : N + cerr :=
+             match its with
+             | [] => inl ln
+             | i :: r => match scan_item path i ln with inl ln' => go r ln' | inr e => inr e end
+             end) body 0 with
+    | inl _ => inl (ln + 1)
+    | inr e => inr e
+    end
+  | _ => inl (ln + 1)
+  end.
+Fixpoint scan_items (file : bytes) (its : list item) (ln : N) : N + cerr :=
+  match its with
+  | [] => inl ln
+  | i :: r => match scan_item file i ln with inl ln' => scan_items file r ln' | inr e => inr e end
+  end.
